@@ -31,9 +31,37 @@ func Run(r *core.Run) {
 			scen.EdResharing(3, 2, []int{0, 1, 2}, 2, 1, r.Seed),
 		)
 	}
-	var states, trans, traces, probes int
+	type job struct {
+		sc   protomc.Scenario
+		mode string
+		devs int
+	}
+	var jobs []job
 	for _, sc := range scs {
-		st := protomc.Explore(r, sc, protomc.Options{C08: true, FlipProbes: true, Workers: w, JointValidate: 20})
+		jobs = append(jobs, job{sc, "", 0})
+	}
+	// ECDSA: joint mode for 2 signers (all schedules); complete runs (FIFO, directed strategies
+	// [thorough: + every 1-deviation run]) with the same monitors for 3 signers, keygen and resharing
+	devs := 0
+	if r.Tier == "thorough" {
+		devs = 1
+	}
+	jobs = append(jobs,
+		job{scen.EcSigning("small", 2, 1, []int{0, 1}, msg, 0, r.Seed), "joint", 0},
+		job{scen.EcSigning("near-q", 3, 1, []int{0, 1, 2}, msg, 0, r.Seed), "dev", devs},
+		job{scen.EcResharing(2, 1, []int{0, 1}, 2, 1, r.Seed, false), "dev", devs},
+		job{scen.EcKeygen("small", 2, 1, r.Seed), "dev", devs},
+	)
+	if r.Tier == "thorough" {
+		jobs = append(jobs, job{scen.EcKeygen("small", 3, 1, r.Seed), "dev", 0}, job{scen.EcResharing(3, 1, []int{0, 1, 2}, 3, 1, r.Seed, true), "dev", 0})
+	}
+	var states, trans, traces, probes int
+	for _, j := range jobs {
+		sc := j.sc
+		if j.mode == "joint" {
+			sc.Cfg.RealRand = true
+		}
+		st := protomc.Explore(r, sc, protomc.Options{C08: true, FlipProbes: j.mode == "", Mode: j.mode, Deviations: j.devs, Workers: w, JointValidate: 20})
 		states += st.States
 		trans += st.Transitions
 		traces += st.JointReplays
@@ -41,12 +69,16 @@ func Run(r *core.Run) {
 		if st.Capped {
 			r.Cap("state cap hit in " + sc.Name)
 		}
-		r.Set("cfg:"+sc.Name, map[string]interface{}{"states": st.States, "transitions": st.Transitions, "max_depth": st.MaxDepth,
+		mode := j.mode
+		if mode == "" {
+			mode = "all schedules (decomposed) + flag-flip probes in every feasible local state"
+		}
+		r.Set("cfg:"+sc.Name, map[string]interface{}{"mode": mode, "deviation_bound": j.devs, "states": st.States, "transitions": st.Transitions, "max_depth": st.MaxDepth,
 			"feasible_local_states": st.LocalStates, "local_transitions_executed": st.LocalTransitions, "flag_flip_probes": st.FlipProbes, "joint_replays": st.JointReplays})
 		for _, s := range st.Samples {
-			r.ForceSample(s)
+			r.Sample(8, s)
 		}
-		fmt.Printf("  %-60s states=%d trans=%d local=%d probes=%d joint=%d\n", sc.Name, st.States, st.Transitions, st.LocalStates, st.FlipProbes, st.JointReplays)
+		fmt.Printf("  %-60s %-6s states=%d trans=%d local=%d probes=%d joint=%d\n", sc.Name, j.mode, st.States, st.Transitions, st.LocalStates, st.FlipProbes, st.JointReplays)
 	}
 	r.Set("states", states)
 	r.Set("transitions", trans)
